@@ -39,6 +39,47 @@ def native(task, payload=None, timeout=3600, hashseed=None):
         raise CheckerError(f"native task {task}: unparsable output {p.stdout[-500:]!r} stderr={p.stderr[-1500:]}")
 
 
+
+class NativeServer:
+    """persistent native worker (one JSON request per line) for the many small parser calls of respec"""
+    _inst = None
+
+    def __init__(self):
+        self.p = subprocess.Popen([NATIVE_PY, "-W", "ignore", "-u", "-m", "pvc.native", "--serve"], stdin=subprocess.PIPE,
+                                  stdout=subprocess.PIPE, stderr=subprocess.DEVNULL, text=True, env=native_env(), cwd=VERIF)
+
+    @classmethod
+    def get(cls):
+        if cls._inst is None or cls._inst.p.poll() is not None:
+            cls._inst = NativeServer()
+        return cls._inst
+
+    def call(self, task, payload):
+        self.p.stdin.write(json.dumps({"task": task, "payload": payload}) + "\n")
+        self.p.stdin.flush()
+        line = self.p.stdout.readline()
+        if not line:
+            raise CheckerError(f"native server died on task {task}")
+        r = json.loads(line)
+        if "error" in r:
+            raise CheckerError(f"native task {task}: {r['error'][-2000:]}")
+        return r["result"]
+
+    @classmethod
+    def stop(cls):
+        if cls._inst is not None:
+            try:
+                cls._inst.p.stdin.close()
+                cls._inst.p.wait(timeout=5)
+            except Exception:
+                cls._inst.p.kill()
+            cls._inst = None
+
+
+def native_fast(task, payload):
+    return NativeServer.get().call(task, payload)
+
+
 def src_hash(path):
     with open(path, "rb") as f:
         return hashlib.sha256(f.read()).hexdigest()[:16]
@@ -147,8 +188,9 @@ class Report:
             "coverage": cov, "assumptions": sorted(set(self.assumptions)), "wall_s": round(wall, 3),
             "violations": len(self.violations),
         }
-        os.makedirs(os.path.join(VERIF, "evidence"), exist_ok=True)
-        with open(os.path.join(VERIF, "evidence", f"{self.prop}.json"), "w") as f:
+        evdir = os.environ.get("PVC_EVIDENCE_DIR") or os.path.join(VERIF, "evidence")
+        os.makedirs(evdir, exist_ok=True)
+        with open(os.path.join(evdir, f"{self.prop}.json"), "w") as f:
             json.dump(ev_obj, f, indent=1, ensure_ascii=False, default=str)
         for fnd in self.known_hits:
             print(f"KNOWN-FINDING: property={self.prop} {fnd.get('what', fnd.get('key'))}")
